@@ -188,6 +188,17 @@ func batchSynthModels(r *rand.Rand) []synthModel {
 				{Op: "ReduceMin", Attrs: []Attr{aIs("axes", []int{-1, 1})}, Ins: []string{"x"}, Outs: []string{"n"}},
 				{Op: "ArgMax", Attrs: []Attr{aI("axis", 2), aI("keepdims", 0)}, Ins: []string{"x"}, Outs: []string{"am"}}},
 			Inputs: []mInput{dynInput("x", 3, 4)}, Outputs: []string{"s", "ls", "m", "n", "am"}, Inits: []mInit{{"unused", fTensor(r, []int{2}, 0, 1)}}}},
+		// dense layers with pruned (exactly zero) weights, in the layout exporters emit (Gemm with transB=1) and as a plain product: the
+		// batch recorder gives samples of this model non-finite and exactly zero features, and compares the CLASS (+Inf, -Inf, NaN) of
+		// every result between batch compositions - which products a zero cancels must not depend on who else is in the batch
+		synthModel{"pruned_dense", mModel{
+			Nodes: []mNode{
+				{Op: "Gemm", Attrs: []Attr{aI("transB", 1)}, Ins: []string{"x", "pw", "pb"}, Outs: []string{"y"}},
+				{Op: "MatMul", Attrs: []Attr{}, Ins: []string{"x", "pm"}, Outs: []string{"z"}},
+				{Op: "Gemm", Attrs: []Attr{}, Ins: []string{"x", "pm"}, Outs: []string{"g"}}},
+			Inputs: []mInput{dynInput("x", 3)}, Outputs: []string{"y", "z", "g"},
+			Inits: []mInit{{"pw", itensorF([]int{2, 3}, []int{1, -1, 2, 0, 3, 0})}, {"pb", itensorF([]int{2}, []int{1, -2})},
+				{"pm", itensorF([]int{3, 2}, []int{0, 1, 2, 0, 0, -1})}}}},
 		// Softmax over an inner axis only (the tensor library's LAST-axis kernel is the open finding KF-C09-softmax-lastaxis-max): the
 		// batch recorder gives one sample of a batch a logit of 3e8 for this model
 		synthModel{"softmax_inner_axis", mModel{
